@@ -885,7 +885,40 @@ impl Frame {
             header.channel_assignment().channels() == subframes.len(),
             "must match to the channel specification in the header"
         )?;
+        Self::verify_subframe_shapes(&header, &subframes)?;
         Ok(Self::from_parts(header, subframes))
+    }
+
+    /// Checks if `subframes` have the sizes that `header` declares.
+    ///
+    /// A decoder reads sub-frames using the block size and the bits-per-sample
+    /// declared in the header, so a frame violating this cannot be decoded.
+    pub(crate) fn verify_subframe_shapes(
+        header: &FrameHeader,
+        subframes: &[SubFrame],
+    ) -> Result<(), VerifyError> {
+        for (ch, subframe) in subframes.iter().enumerate() {
+            let (block_size, bits_per_sample) = match subframe {
+                SubFrame::Constant(c) => (c.block_size(), c.bits_per_sample()),
+                SubFrame::Verbatim(c) => (c.samples().len(), c.bits_per_sample()),
+                SubFrame::FixedLpc(c) => (c.residual().block_size(), c.bits_per_sample()),
+                SubFrame::Lpc(c) => (c.residual().block_size(), c.bits_per_sample()),
+            };
+            verify_true!(
+                "subframe[{ch}]",
+                block_size == header.block_size(),
+                "must have the block size specified in the header"
+            )?;
+            if let Some(header_bps) = header.bits_per_sample() {
+                let offset = header.channel_assignment().bits_per_sample_offset(ch);
+                verify_true!(
+                    "subframe[{ch}]",
+                    bits_per_sample == header_bps + offset,
+                    "must have the bits-per-sample specified in the header"
+                )?;
+            }
+        }
+        Ok(())
     }
 
     /// Constructs Frame from [`FrameHeader`] and [`SubFrame`]s.
